@@ -16,12 +16,17 @@ namespace WcModel
 inductive GKind | q | s | p | a
   deriving DecidableEq, Repr, Inhabited
 
+/-- how a translated extended group is wrapped: not at all, `((?#)…)` (a capture once the
+    comment is stripped), or `(?:…)` after the `(?#)` → `?:` rewrite inside a `!(` copy -/
+inductive Capt | no | yes | erased
+  deriving DecidableEq, Repr, Inhabited
+
 /-- one element of Python's `current` / `extended` string lists -/
 inductive Item
   | re (r : Re)
   | empty                                                 -- `''`
   | bar                                                   -- `'|'`
-  | group (k : GKind) (cap : Bool) (body : List Item)     -- `?(` `*(` `+(` `@(` closed
+  | group (k : GKind) (cap : Capt) (body : List Item)     -- `?(` `*(` `+(` `@(` closed
   | invOpen (cap : Bool) (body : List Item)               -- `(?:(?!(?:body)`
   | ph (star : Re)                                        -- `InvPlaceholder(star)`
   | closed (tail : List Item) (eop : Option Re) (star : Re) -- `TAIL EOP ) STAR )`
@@ -404,10 +409,13 @@ def handleDot (cfg : Cfg) (ps : PS) (it : It) : Re :=
 
 /-! ### `consume_path_sep` (1525-1548) -/
 
-def consumeUnix : It → It
-  | ⟨idx, '/' :: r⟩ => consumeUnix ⟨idx + 1, r⟩
-  | it => it
-termination_by it => it.rest.length
+def dropWhileCount (c : Char) : List Char → Nat → Nat × List Char
+  | d :: r, n => if d = c then dropWhileCount c r (n + 1) else (n, d :: r)
+  | [], n => (n, [])
+
+def consumeUnix (it : It) : It :=
+  let (n, r) := dropWhileCount '/' it.rest it.idx
+  ⟨n, r⟩
 
 /-- Windows flavour: `count` as in the source; `prev` = iterator before the last char read -/
 def consumeWin : Nat → It → It → Int → It
@@ -430,7 +438,7 @@ def consumePathSep (cfg : Cfg) (it : It) : It :=
 
 mutual
 def Item.eraseCap : Item → Item
-  | .group k _ body => .group k false (Item.eraseCapL body)
+  | .group k c body => .group k (if c = .yes then .erased else c) (Item.eraseCapL body)
   | .invOpen _ body => .invOpen false (Item.eraseCapL body)
   | .closed tail eop star => .closed (Item.eraseCapL tail) eop star
   | x => x
@@ -439,24 +447,28 @@ def Item.eraseCapL : List Item → List Item
   | x :: xs => Item.eraseCap x :: Item.eraseCapL xs
 end
 
-/-- `rev` is `current` reversed (head = last element).  Returns the new reversed list. -/
-def cleanUpGo (cfg : Cfg) (nested : Bool) : List Item → List Item → List Item
-  | [], done => done
-  | .ph star :: rest, done =>
+/-- `rev` is `current` reversed (head = last element).  Returns the new list in forward
+    order and the number of placeholders that were closed. -/
+def cleanUpGo (cfg : Cfg) (nested : Bool) : List Item → List Item → Nat → List Item × Nat
+  | [], done, n => (done, n)
+  | .ph star :: rest, done, n =>
     let content := if cfg.capture then Item.eraseCapL done else done
-    cleanUpGo cfg nested rest (.closed content (if nested then none else some cfg.eop) star :: done)
-  | x :: rest, done => cleanUpGo cfg nested rest (x :: done)
+    cleanUpGo cfg nested rest (.closed content (if nested then none else some cfg.eop) star :: done) (n + 1)
+  | x :: rest, done, n => cleanUpGo cfg nested rest (x :: done) n
 
+/-- `inv_ext` is decremented once per placeholder closed here (the `fix:` commit for D9;
+    before it the counter was zeroed). -/
 def cleanUpInverse (cfg : Cfg) (ps : PS) (cur : List Item) (nested : Bool) : List Item × PS :=
   if ps.invExt = 0 then (cur, ps)
-  else ((cleanUpGo cfg nested cur []).reverse, { ps with invExt := 0 })
+  else
+    let (fwd, n) := cleanUpGo cfg nested cur [] 0
+    (fwd.reverse, { ps with invExt := ps.invExt - n })
 
 /-! ### `_handle_star` (1262-1367) -/
 
-def dropStars : It → It
-  | ⟨idx, '*' :: r⟩ => dropStars ⟨idx + 1, r⟩
-  | it => it
-termination_by it => it.rest.length
+def dropStars (it : It) : It :=
+  let (n, r) := dropWhileCount '*' it.rest it.idx
+  ⟨n, r⟩
 
 def Item.isDiv (win : Bool) : Item → Bool
   | .re r => r == Frag.globstarDiv win
@@ -559,10 +571,10 @@ def parseExtend (cfg : Cfg) : Nat → Char → It → PS → List Item → Bool 
       | .ok (ps, it, extended) =>
         let body := extended.reverse
         let (cur, ps) : List Item × PS :=
-          if listType = '?' then (.group .q cfg.capture body :: cur, ps)
-          else if listType = '*' then (.group .s cfg.capture body :: cur, ps)
-          else if listType = '+' then (.group .p cfg.capture body :: cur, ps)
-          else if listType = '@' then (.group .a cfg.capture body :: cur, ps)
+          if listType = '?' then (.group .q (if cfg.capture then .yes else .no) body :: cur, ps)
+          else if listType = '*' then (.group .s (if cfg.capture then .yes else .no) body :: cur, ps)
+          else if listType = '+' then (.group .p (if cfg.capture then .yes else .no) body :: cur, ps)
+          else if listType = '@' then (.group .a (if cfg.capture then .yes else .no) body :: cur, ps)
           else
             let ps := { ps with invExt := ps.invExt + 1 }
             let star : Re :=
@@ -644,7 +656,6 @@ structure DriveInfo where
 
 inductive ParseErr
   | noAbsolute        -- ValueError('The pattern must be a relative path pattern')
-  | outOfFuel
   deriving DecidableEq, Repr, Inhabited
 
 /-- the `for c in i:` loop of `root` (1581-1626). `cur` is `current` reversed. -/
@@ -737,27 +748,41 @@ structure Parsed where
   ci : Bool              -- `(?si:` vs `(?s:`
   deriving Repr, Inhabited
 
-/-- `_parse` (1633-1671) -/
-def parseItems (cfg : Cfg) (drive : List Char → DriveInfo) (p : List Char) : Except ParseErr Parsed := do
-  let ps : PS := { matchbase := cfg.matchbase0, extmatchbase := cfg.extmatchbase0, globstar := cfg.globstar0 }
-  let (p, ps) :=
-    if cfg.anchor then
-      let (p', n) := stripAnchor cfg.winDriveDetect p
-      (p', if n then { ps with matchbase := false, extmatchbase := false } else ps)
-    else (p, ps)
-  let (ps, prepend) ← (
-    if ps.matchbase || ps.extmatchbase then
-      if cfg.globstarlong && cfg.follow then
-        root cfg drive ['*', '*', '*'] ps [.empty]
-      else do
-        let g := ps.globstar
-        let (ps, pre) ← root cfg drive ['*', '*'] { ps with globstar := true } [.empty]
-        pure ({ ps with globstar := g }, pre)
-    else pure (ps, [Item.empty]))
+/-- the implicit `**` / `***` prefix of MATCHBASE / `_EXTMATCHBASE` (1645-1652) -/
+def parsePrepend (cfg : Cfg) (drive : List Char → DriveInfo) (ps : PS) : Except ParseErr (PS × List Item) :=
+  if ps.matchbase || ps.extmatchbase then
+    if cfg.globstarlong && cfg.follow then
+      root cfg drive ['*', '*', '*'] ps [.empty]
+    else
+      match root cfg drive ['*', '*'] { ps with globstar := true } [.empty] with
+      | .ok (ps', pre) => .ok ({ ps' with globstar := ps.globstar }, pre)
+      | .error e => .error e
+  else .ok (ps, [Item.empty])
+
+/-- the `_ANCHOR` step of `_parse` (1639-1643) -/
+def anchorStep (cfg : Cfg) (p : List Char) (ps : PS) : List Char × PS :=
+  if cfg.anchor then
+    let r := stripAnchor cfg.winDriveDetect p
+    (r.1, if r.2 then { ps with matchbase := false, extmatchbase := false } else ps)
+  else (p, ps)
+
+/-- the body of `_parse` after the prefix has been produced (1654-1665) -/
+def parseBody (cfg : Cfg) (drive : List Char → DriveInfo) (p : List Char) (ps : PS)
+    (prepend : List Item) : Except ParseErr Parsed :=
   let p := if p = ['\\'] then [] else p
-  let (ps, result) ← (if p.isEmpty then pure (ps, [Item.empty]) else root cfg drive p ps [.empty])
-  let result := if !p.isEmpty && (ps.matchbase || ps.extmatchbase) then result ++ prepend else result
-  pure { items := result.reverse, ci := !cfg.caseSensitive }
+  match (if p.isEmpty then .ok (ps, [Item.empty]) else root cfg drive p ps [.empty]) with
+  | .error e => .error e
+  | .ok (ps, result) =>
+    let result := if !p.isEmpty && (ps.matchbase || ps.extmatchbase) then result ++ prepend else result
+    .ok { items := result.reverse, ci := !cfg.caseSensitive }
+
+/-- `_parse` (1633-1671) -/
+def parseItems (cfg : Cfg) (drive : List Char → DriveInfo) (p : List Char) : Except ParseErr Parsed :=
+  let ps : PS := { matchbase := cfg.matchbase0, extmatchbase := cfg.extmatchbase0, globstar := cfg.globstar0 }
+  let a := anchorStep cfg p ps
+  match parsePrepend cfg drive a.2 with
+  | .error e => .error e
+  | .ok (ps, prepend) => parseBody cfg drive a.1 ps prepend
 
 /-! ### printing items (what `''.join(result)` gives) -/
 
@@ -772,8 +797,11 @@ def Item.render : Item → List Char
       | .q => "(?:".toList ++ inner ++ ")?".toList
       | .s => "(?:".toList ++ inner ++ ")*".toList
       | .p => "(?:".toList ++ inner ++ ")+".toList
-      | .a => if cap then inner else "(?:".toList ++ inner ++ [')']
-    if cap then ['('] ++ q ++ [')'] else q
+      | .a => if cap = .no then "(?:".toList ++ inner ++ [')'] else inner
+    match cap with
+    | .no => q
+    | .yes => ['('] ++ q ++ [')']
+    | .erased => "(?:".toList ++ q ++ [')']
   | .invOpen cap body =>
     (if cap then "((?!(?:" else "(?:(?!(?:").toList ++ Item.renderL body ++ [')']
   | .ph star => star.render
